@@ -81,6 +81,7 @@ class Ctx:
     def __init__(self, program: Program, tier: str = 'quick'):
         self.P = program
         self.tier = tier
+        self.pid: Optional[str] = None     # property being decided (sweeps restrict themselves to its functions)
         self._facts: dict[tuple[str, bool], BranchFacts] = {}
         self._fb: dict[str, FormulaBuilder] = {}
         self.consumed_functions: set[str] = set()
